@@ -515,6 +515,51 @@ Section Histories.
 
   Definition thread_results (st : cstate) : list (option (option rerr)) :=
     map (fun t => match t_pc t with PDone r => Some r | _ => None end) (c_thr st).
+  (* ---------------------------------------------------------------- concurrent pushes into one cas.Memory *)
+  (* Memory.Push = Load (exists?) ; ReadAll (thread-local) ; LoadOrStore (atomic).
+     [m_lim] = Some l: the push goes through LimitedStorage with push limit l. *)
+  Inductive mpc :=
+  | MStart
+  | MRead (res : option rerr) (buf : str)
+  | MDone (r : option rerr).
+
+  Record mthr := mkMthr { m_d : desc; m_evs : list ev; m_comb : bool; m_fuel : nat; m_lim : option Z; m_pc : mpc }.
+  Record mstate := mkM { ms_mem : mem; ms_thr : list mthr }.
+
+  Definition with_mpc (t : mthr) (p : mpc) : mthr :=
+    mkMthr (m_d t) (m_evs t) (m_comb t) (m_fuel t) (m_lim t) p.
+
+  Definition mstep (st : mstate) (i : nat) : option mstate :=
+    match nth_error (ms_thr st) i with
+    | None => None
+    | Some t =>
+        let upd p := set_nth (ms_thr st) i (with_mpc t p) in
+        match m_pc t with
+        | MDone _ => None
+        | MStart =>
+            let too_big := match m_lim t with Some l => (d_sz (m_d t) >? l)%Z | None => false end in
+            if too_big then Some (mkM (ms_mem st) (upd (MDone (Some ETooBig))))
+            else match mem_get (ms_mem st) (m_d t) with
+                 | Some _ => Some (mkM (ms_mem st) (upd (MDone (Some EExists))))
+                 | None =>
+                     let src := mkBase (m_evs t) (match m_lim t with Some _ => Some (d_sz (m_d t)) | None => None end) in
+                     let '((e, buf), _) := read_all H (m_comb t) true (m_fuel t) src (d_dg (m_d t)) (d_sz (m_d t)) in
+                     Some (mkM (ms_mem st) (upd (MRead e buf)))
+                 end
+        | MRead (Some e) _ => Some (mkM (ms_mem st) (upd (MDone (Some e))))
+        | MRead None buf =>
+            match mem_get (ms_mem st) (m_d t) with        (* LoadOrStore *)
+            | Some _ => Some (mkM (ms_mem st) (upd (MDone (Some EExists))))
+            | None => Some (mkM ((m_d t, buf) :: ms_mem st) (upd (MDone None)))
+            end
+        end
+    end.
+
+  Fixpoint mrun (st : mstate) (sched : list nat) : option mstate :=
+    match sched with
+    | [] => Some st
+    | i :: r => match mstep st i with Some st' => mrun st' r | None => None end
+    end.
 End Histories.
 
 (* ------------------------------------------------------------------ cas.Proxy *)
